@@ -196,11 +196,13 @@ def split_outputs(stdout):
 
 
 class Case:
-    __slots__ = ("ops", "origin", "nout")
+    __slots__ = ("ops", "origin", "nout", "prop", "hdrv")
 
-    def __init__(self, ops, origin="gen", nout=None):
+    def __init__(self, ops, origin="gen", nout=None, prop=None, hdrv=None):
         self.ops = ops
         self.origin = origin
+        self.prop = prop        # the property module whose engine / oracles apply to this case
+        self.hdrv = hdrv
         # number of `=` lines the case produces (differs from len(ops) only for annotated traces)
         self.nout = len(ops) if nout is None else nout
 
@@ -431,7 +433,11 @@ def main():
         broken = failing_theorems(pid, log_props)
         proof_problems.append("lake build Strophe.Props.%s failed: %s" % (pid, "; ".join(broken) or log_props[-800:]))
     drv_mod = "Strophe.Drv." + prop.ENGINE[0].upper() + prop.ENGINE[1:]
-    tok_hits = audit_tokens(["Strophe.Props." + pid, drv_mod])
+    also_mods = []
+    for (mname, _n) in getattr(prop, "ALSO", []):
+        e2 = importlib.import_module("props." + mname).ENGINE
+        also_mods.append("Strophe.Drv." + e2[0].upper() + e2[1:])
+    tok_hits = audit_tokens(["Strophe.Props." + pid, drv_mod] + also_mods)
     if tok_hits:
         proof_problems.append("forbidden tokens: " + "; ".join(tok_hits[:10]))
     axioms_seen = set()
@@ -464,45 +470,81 @@ def main():
             rp = json.loads(txt)
         else:   # a plain .ops file (corpus format)
             rp = {"ops": [l for l in txt.split("\n") if l.strip()]}
-        cases = [Case(rp["ops"], "replay")]
+        rprop = prop
+        for (mname, _n) in getattr(prop, "ALSO", []):
+            m2 = importlib.import_module("props." + mname)
+            if rp.get("engine") == m2.ENGINE and rp.get("engine") != prop.ENGINE:
+                rprop = m2
+        passes = [(rprop, [Case(rp["ops"], "replay")])]
     else:
         cases = [Case(ops, "corpus") for ops in prop.corpus()]
         cases += [Case(ops, "gen") for ops in prop.generate(rng, tier, args.cases)]
-    stateful = prop.STATEFUL
+        passes = [(prop, cases)]
+        # companion passes: sessions of another engine that exercise code this property also
+        # depends on (e.g. the negotiation of compression lives in auth.c = engine conn)
+        for (mname, ncomp) in getattr(prop, "ALSO", []):
+            m2 = importlib.import_module("props." + mname)
+            n2 = ncomp if tier == "quick" else ncomp * 10
+            passes.append((m2, [Case(ops, "gen-companion") for ops in m2.generate(rng, tier, n2)]))
     timeout = 3000 if tier == "thorough" else 900
-    c_results = l_results = None
-    if hdrv:
-        c_results = run_side([hdrv, prop.ENGINE], cases, stateful, timeout)
-    if ok_drv and not os.environ.get("VERIF_IMPL_ONLY"):
-        l_cases = cases
-        if hasattr(prop, "lean_input") and c_results:
-            # recorded-parameter replay (DESIGN §3.2): the model consumes the ops annotated with
-            # what the external engine did on the implementation side
-            l_cases = []
-            for ci, case in enumerate(cases):
-                extras = [ex for _, ex in c_results[ci]["outs"]]
-                extras += [[]] * (len(case.ops) - len(extras))
-                l_cases.append(Case(prop.lean_input(case.ops, extras), case.origin, nout=len(case.ops)))
-        l_results = run_side([build.drv_path(), prop.ENGINE], l_cases, stateful, timeout)
-    elif not ok_drv:
-        proof_problems.append("model driver does not build: " + log_drv[-800:])
-
     evaluations = 0
     tags = {}
-    all_fails = []   # (case index, failure)
+    all_fails = []   # (case, failure)
     diffs = 0
-    if c_results:
-        for ci, case in enumerate(cases):
-            evaluations += len(case.ops)
-            lr = l_results[ci] if l_results else None
-            fails = evaluate_case(prop, case, c_results[ci], lr)
-            for f in fails:
-                all_fails.append((ci, f))
-                if f["kind"] == "diff":
-                    diffs += 1
-            if lr is not None:
-                for t in prop.tags(case, [m for m, _ in c_results[ci]["outs"]]):
-                    tags[t] = tags.get(t, 0) + 1
+    cases = []
+    c_results_all = []
+    l_results_all = []
+    ran_both = True
+    for (pp, pcases) in passes:
+        if pp is prop:
+            p_hdrv = hdrv
+        else:
+            try:
+                p_hdrv = build.build_harness(pp.ENGINE)
+            except build.BuildError as e:
+                p_hdrv = None
+                proof_problems.append("harness build failed (%s): %s" % (pp.ENGINE, (e.what + e.log)[-800:]))
+        for c in pcases:
+            c.prop = pp
+            c.hdrv = p_hdrv
+        stateful = pp.STATEFUL
+        c_results = l_results = None
+        if p_hdrv:
+            c_results = run_side([p_hdrv, pp.ENGINE], pcases, stateful, timeout)
+        if ok_drv and not os.environ.get("VERIF_IMPL_ONLY"):
+            l_cases = pcases
+            if hasattr(pp, "lean_input") and c_results:
+                # recorded-parameter replay (DESIGN §3.2): the model consumes the ops annotated with
+                # what the external engine did on the implementation side
+                l_cases = []
+                for ci, case in enumerate(pcases):
+                    extras = [ex for _, ex in c_results[ci]["outs"]]
+                    extras += [[]] * (len(case.ops) - len(extras))
+                    l_cases.append(Case(pp.lean_input(case.ops, extras), case.origin, nout=len(case.ops)))
+            l_results = run_side([build.drv_path(), pp.ENGINE], l_cases, stateful, timeout)
+        elif not ok_drv and pp is prop:
+            proof_problems.append("model driver does not build: " + log_drv[-800:])
+        if not (c_results and l_results):
+            ran_both = False
+        if c_results:
+            for ci, case in enumerate(pcases):
+                evaluations += len(case.ops)
+                lr = l_results[ci] if l_results else None
+                fails = evaluate_case(pp, case, c_results[ci], lr)
+                for f in fails:
+                    if pp is not prop:
+                        f["signature"] = f["signature"].replace(pp.ID + ":", pid + ":", 1)
+                    all_fails.append((case, f))
+                    if f["kind"] == "diff":
+                        diffs += 1
+                if lr is not None:
+                    for t in pp.tags(case, [m for m, _ in c_results[ci]["outs"]]):
+                        tags[t] = tags.get(t, 0) + 1
+            cases += pcases
+            c_results_all += c_results
+            l_results_all += (l_results if l_results else [None] * len(pcases))
+    c_results = c_results_all or None
+    l_results = l_results_all if any(x is not None for x in l_results_all) else None
 
     # ---- step 3: verdict --------------------------------------------------------------------
     def write_replay(name, payload):
@@ -514,7 +556,7 @@ def main():
     reported_sigs = set()
     concrete = [x for x in all_fails if x[1]["kind"] in ("oracle", "crash")]
     diff_only = [x for x in all_fails if x[1]["kind"] in ("diff", "model-crash")]
-    for ci, f in concrete:
+    for case, f in concrete:
         sig = f["signature"]
         if sig in reported_sigs:
             continue
@@ -523,12 +565,13 @@ def main():
         if k:
             known_printed.append("KNOWN-FINDING: property=%s %s" % (pid, k["what"]))
             continue
-        case = cases[ci]
+        cp = case.prop
+        stateful = cp.STATEFUL
         ops = case.ops[: f["op"] + 1] if stateful else [case.ops[min(f["op"], len(case.ops) - 1)]]
-        if stateful and hdrv and len(ops) > 3:
-            ops = shrink_ops(prop, hdrv, ops, f, timeout)
+        if stateful and case.hdrv and len(ops) > 3 and cp is prop:
+            ops = shrink_ops(cp, case.hdrv, ops, f, timeout)
         path = write_replay("%s-%d-%d.json" % (pid, seed, len(violations)),
-                            {"property": pid, "engine": prop.ENGINE, "ops": ops, "kind": f["kind"],
+                            {"property": pid, "engine": cp.ENGINE, "ops": ops, "kind": f["kind"],
                              "signature": sig, "detail": f["detail"], "seed": seed, "tier": tier})
         violations.append((path, ""))
         if len(violations) >= 5:
@@ -536,15 +579,15 @@ def main():
     concrete_unlisted = len(violations)
     if diff_only and not concrete_unlisted:
         # correspondence broken, oracle silent on every explored input
-        ci, f = diff_only[0]
-        case = cases[ci]
+        case, f = diff_only[0]
+        stateful = case.prop.STATEFUL
         k = match_known(known, f["signature"])
         if k:
             known_printed.append("KNOWN-FINDING: property=%s %s" % (pid, k["what"]))
         else:
             ops = case.ops[: f["op"] + 1] if stateful else [case.ops[f["op"]]]
             path = write_replay("%s-%d-corr.json" % (pid, seed),
-                                {"property": pid, "engine": prop.ENGINE, "ops": ops,
+                                {"property": pid, "engine": case.prop.ENGINE, "ops": ops,
                                  "kind": "correspondence", "detail": f["detail"],
                                  "broken": "correspondence model/implementation, first diverging op %d" % f["op"],
                                  "seed": seed, "tier": tier})
@@ -582,7 +625,7 @@ def main():
             "distinct_nontrivial": len(tags),
             "rule": prop.RULE,
             "tag_histogram": dict(sorted(tags.items(), key=lambda kv: -kv[1])[:400]),
-            "traces_validated_against_impl": len(cases) if (c_results and l_results) else 0,
+            "traces_validated_against_impl": len(cases) if (c_results and l_results and ran_both) else 0,
             "correspondence_disagreements": diffs,
             "samples": samples,
             "fingerprints": {k: v for k, v in fingerprints.items() if k.split(":")[0] in prop.FILES},
@@ -604,7 +647,7 @@ def main():
         for ci, case in enumerate(cases):
             for i, op in enumerate(case.ops):
                 co = c_results[ci]["outs"][i][0] if i < len(c_results[ci]["outs"]) else "<no output: %s>" % c_results[ci]["crash"]
-                lo = l_results[ci]["outs"][i][0] if l_results and i < len(l_results[ci]["outs"]) else "<none>"
+                lo = l_results[ci]["outs"][i][0] if l_results and l_results[ci] and i < len(l_results[ci]["outs"]) else "<none>"
                 print("op %d: %s\n   impl : %s\n   model: %s" % (i, op[:200], co[:300], lo[:300]))
     print("%s %s seed=%d: %d obligations (%d discharged), %d cases / %d ops, %d distinct tags, "
           "%d disagreements, %d violations, %.1fs"
